@@ -190,10 +190,10 @@ inductive Code where
   | aeIface (n : Str)
   | aeRef (p : Code)
   | aeNested (p : Code)
-  | ptrDcPtr | ptrDcVal
+  | ptrDcPtr (viaPointee : Bool) | ptrDcVal (viaPointee : Bool)   -- viaPointee: the pointer type is a defined type (no methods)
   | ptrNewAssign (raw : TE)
   | ptrRef (raw : TE) (p : Code)
-  | ptrStruct (raw : TE)
+  | ptrStruct (viaPointee : Bool) (raw : TE)
 deriving Repr, Inhabited
 
 /-- does the hand-written `DeepCopy` (or, if there is only `DeepCopyInto`, the generated one) return a pointer?
@@ -270,14 +270,18 @@ def fixupsOf (env : Env) (fa : Nat) (rec : TE → Code) : List Field → Code
   | [] => .fxNil
   | m :: rest => .fxCons m.name (fixOf env fa rec m) (fixupsOf env fa rec rest)
 
-/-- `doPointer` for pointee type `e` -/
-def ptrBodyOf (env : Env) (fa : Nat) (rec : TE → Code) (e : TE) : Code :=
-  if hasCustom env e then (if rightPointer env fa e then .ptrDcPtr else .ptrDcVal)
+/-- `doPointer` for pointee type `e`; `dp`: the pointer type itself is a defined type (`type P *T`) -/
+def ptrBodyOf (env : Env) (fa : Nat) (rec : TE → Code) (dp : Bool) (e : TE) : Code :=
+  if hasCustom env e then (if rightPointer env fa e then .ptrDcPtr dp else .ptrDcVal dp)
   else if assignable env fa e then .ptrNewAssign e
   else match view env fa e with
     | .map _ _ | .slice _ | .ptr _ => .ptrRef e (rec (underTE env fa e))
-    | .struct _ => .ptrStruct e
+    | .struct _ => .ptrStruct dp e
     | _ => .fatal
+
+def TE.isNamed : TE → Bool
+  | .named _ => true
+  | _ => false
 
 /-- `generateFor`; `fa` is the (fixed) fuel of `view`/`assignable`, the recursion follows the anonymous
 structure of the type -/
@@ -291,7 +295,7 @@ def genFor (env : Env) (fa : Nat) : Nat → TE → Code
         else .mapLoop t (mapValOf env fa (genFor env fa f) e)
     | .slice e => if hasCustom env t then .callDeepCopy else sliceBodyOf env fa (genFor env fa f) t e
     | .struct fs => if hasCustom env t then .callDeepCopy else .structAll (fixupsOf env fa (genFor env fa f) fs)
-    | .ptr e => ptrBodyOf env fa (genFor env fa f) e
+    | .ptr e => ptrBodyOf env fa (genFor env fa f) t.isNamed e
     | _ => .fatal
 
 /-- what `GenerateType` emits for a selected type: the bodies of `DeepCopyInto` and `DeepCopy` (none when
